@@ -1,7 +1,16 @@
 import FxVerif.Model.C08
+import FxVerif.Model.C08U
 import FxVerif.Proofs.Ledger
+import FxVerif.Proofs.C08Index
+import FxVerif.Proofs.C08Books
+import FxVerif.Proofs.C08Run
+import FxVerif.Proofs.C08Ext
+import FxVerif.Proofs.C08Fam
+import FxVerif.Model.C08Cache
+import FxVerif.Proofs.C08Cache
 import FxVerif.Gen.C04
 import FxVerif.Gen.C08
+import FxVerif.Gen.C08b
 /-!
 # C08 — coin ↔ ERC-20 conversion conserves value and keeps the token-pair books balanced
 
@@ -38,6 +47,38 @@ theorem index_ops_match_code :
       ["Set:KeyPrefixTokenPair", "Set:KeyPrefixTokenPairByDenom", "Set:KeyPrefixTokenPairByERC20"] ∧
     FxVerif.Gen.C08.removeTokenPair_store =
       ["Delete:KeyPrefixTokenPair", "Delete:KeyPrefixTokenPairByDenom", "Delete:KeyPrefixTokenPairByERC20", "DeleteAliases"] := by
+  decide
+
+/-- **the guards of the index operations as modelled are the guards as written** (conditions and errors regenerated from
+the AST, in source order, loops over the aliases included).  `stepIdx` checks, in the same order: registration —
+denomination not registered, denomination not an alias, every alias ≠ the denomination / not a registered denomination /
+not an alias of anything (`aliasesOk`), stored metadata equal (coin) or absent (ERC-20), contract not registered
+(ERC-20); alias update — denomination registered, alias not a registered denomination, metadata present; and the alias
+list is rebuilt by skipping exactly the removed alias (`old.filter (· ≠ a)`) or extended at the end (`old ++ [a]`). -/
+theorem index_guards_match_code :
+    FxVerif.Gen.C08.registerNativeCoin_guards =
+      [("!k.GetEnableErc20(ctx)", "ErrERC20Disabled"),
+       ("k.IsDenomRegistered(ctx, coinMetadata.Base)", "ErrTokenPairAlreadyExists"),
+       ("k.IsAliasDenomRegistered(ctx, coinMetadata.Base)", "ErrInvalidMetadata"),
+       ("alias == coinMetadata.Base || alias == coinMetadata.Display || alias == coinMetadata.Symbol", "ErrInvalidMetadata"),
+       ("k.IsDenomRegistered(ctx, alias)", "ErrInvalidMetadata"),
+       ("k.IsAliasDenomRegistered(ctx, alias)", "ErrInvalidMetadata"),
+       ("err := types.EqualMetadata(meta, coinMetadata); err != nil", "ErrInvalidMetadata")] ∧
+    FxVerif.Gen.C08.registerNativeERC20_guards =
+      [("!k.GetEnableErc20(ctx)", "ErrERC20Disabled"),
+       ("k.IsERC20Registered(ctx, contract)", "ErrTokenPairAlreadyExists"),
+       ("erc20Data.Symbol == fxtypes.DefaultDenom || k.IsDenomRegistered(ctx, base)", "ErrInternalTokenPair"),
+       ("k.IsAliasDenomRegistered(ctx, base)", "ErrInternalTokenPair"),
+       ("alias == base || alias == erc20Data.Symbol", "ErrInvalidAlias"),
+       ("k.IsDenomRegistered(ctx, alias)", "ErrInvalidAlias"),
+       ("k.IsAliasDenomRegistered(ctx, alias)", "ErrInvalidAlias"),
+       ("k.bankKeeper.HasDenomMetaData(ctx, base)", "ErrInternalTokenPair")] ∧
+    FxVerif.Gen.C08.updateDenomAliases_guards =
+      [("!k.IsDenomRegistered(ctx, denom)", "ErrInvalidDenom"), ("k.IsDenomRegistered(ctx, alias)", "ErrInvalidDenom"),
+       ("!found", "ErrInvalidMetadata")] ∧
+    FxVerif.Gen.C08.updateAlias_removeFilter =
+      ["range oldAliases", "if denomAlias == alias { continue }", "newAliases = append(newAliases, denomAlias)"] ∧
+    FxVerif.Gen.C08.updateAlias_addExpr = "append(oldAliases, alias)" := by
   decide
 
 /-! ### convert_exact -/
@@ -336,5 +377,495 @@ theorem toggle_frame (i i' : Idx) (d : Nat) (h : stepIdx i (.toggle d) = .ok i')
   · split at h
     · cases h
     · cases h; exact ⟨rfl, rfl, rfl, rfl⟩
+
+/-! ### translator tie of the unified model (Model/C08U.lean) -/
+
+theorem call_send_coin (d : Nat) (s t : Addr) (n : Nat) :
+    Prim.call (.send (coinAsset d) s t n) = if isModule s then .sendModToAcc else .sendAccToMod := by
+  unfold coinAsset; split <;> rfl
+
+theorem call_mint_coin (d : Nat) (b t : Addr) (n : Nat) : Prim.call (.mint (coinAsset d) b t n) = .mintCoins := by
+  unfold coinAsset; split <;> rfl
+
+theorem call_burn_coin (d : Nat) (b t : Addr) (n : Nat) : Prim.call (.burn (coinAsset d) b t n) = .burnCoins := by
+  unfold coinAsset; split <;> rfl
+
+open FxVerif.Gen.C04 in
+/-- the flows of the unified model make exactly the keeper calls of the Go conversion functions, for every
+denomination, contract, sender, receiver and amount (call sequences regenerated from the AST) -/
+theorem unified_flows_match_code :
+    (∀ d ct s r n, calls (convertCoinU .moduleOwned d ct (.user s) r n) = convertCoinNativeCoin_other) ∧
+    (∀ d ct s r n, calls (convertCoinU .fx d ct (.user s) r n) = convertCoinNativeCoin_fx) ∧
+    (∀ d ct s r n, calls (convertCoinU .externalOwned d ct (.user s) r n) = convertCoinNativeERC20) ∧
+    (∀ d ct s r n, calls (convertERC20U .moduleOwned d ct s r n) = convertERC20NativeCoin_other) ∧
+    (∀ d ct s r n, calls (convertERC20U .fx d ct s r n) = convertERC20NativeCoin_fx) ∧
+    (∀ d ct s r n, calls (convertERC20U .externalOwned d ct s r n) = convertERC20NativeToken) := by
+  refine ⟨?_, ?_, ?_, ?_, ?_, ?_⟩ <;> intros <;>
+    simp [calls, convertCoinU, convertERC20U, call_send_coin, call_mint_coin, call_burn_coin, Prim.call, isModule, E,
+      convertCoinNativeCoin_other, convertCoinNativeCoin_fx, convertCoinNativeERC20, convertERC20NativeCoin_other,
+      convertERC20NativeCoin_fx, convertERC20NativeToken]
+
+/-- the unified flows restricted to a base denomination `g < 100` with contract number `g` are the group-level flows of
+`Model/Flows.lean` (so every statement about those transfers to the unified model) -/
+theorem unified_flows_extend_group_flows (k : Kind) (g : Nat) (hg : g < 100) (s r : Addr) (n : Nat) :
+    convertCoinU k g g s r n = convertCoin k g s r n ∧ convertERC20U k g g s r n = convertERC20 k g s r n := by
+  have : coinAsset g = .base g := by simp [coinAsset, hg]
+  cases k <;> simp [convertCoinU, convertERC20U, convertCoin, convertERC20, this]
+
+def toD : Call → FxVerif.Gen.C08b.DCall
+  | .sendAccToMod => .sendAccToMod | .sendModToAcc => .sendModToAcc | .mintCoins => .mintCoins | .burnCoins => .burnCoins
+  | .erc20Mint => .erc20Mint | .erc20Burn => .erc20Burn | .erc20Transfer => .erc20Transfer
+
+open FxVerif.Gen.C08b in
+/-- **`MsgConvertDenom` as modelled is `MsgConvertDenom` as written**: the handler's call sequence (conversion, then the
+receiver leg only when sender ≠ receiver), `ConvertDenomToTarget` (take the coin, convert, pay the target), the
+three-way choice of `convertDenomToContractOwner` and, branch by branch, the mint / burn calls of `convertNativeAlias`,
+`convertNativeCoin`, `convertNativeERC20` — all regenerated from the AST — against `convertDenomU` / `convertDenomMid`
+for every base, alias list, source, target and amount -/
+theorem convertDenom_flows_match_code :
+    convertDenom_otherReceiver = [[.toTarget, .sendAccToMod, .sendModToAcc]] ∧
+    convertDenom_sameReceiver = [[.toTarget]] ∧
+    convertDenomToTarget_same = [[]] ∧
+    convertDenomToTarget_convert = [[.sendAccToMod, .toContractOwner, .sendModToAcc]] ∧
+    toContractOwner_converted = [[.nativeAlias]] ∧ toContractOwner_nativeCoin = [[.nativeCoin]] ∧
+    toContractOwner_nativeERC20 = [[.nativeERC20]] ∧
+    (∀ base aliases src dst n, [(calls (convertDenomMid .moduleOwned base aliases src dst n)).map toD] =
+      if src = base then nativeCoin_srcIsBase else if dst = base then nativeCoin_dstIsBase else nativeCoin_aliasToAlias) ∧
+    (∀ base aliases src dst n, [(calls (convertDenomMid .externalOwned base aliases src dst n)).map toD] =
+      if src = base then nativeERC20_srcIsBase else if dst = base then nativeERC20_dstIsBase else nativeERC20_aliasToAlias) ∧
+    (∀ base aliases src dst n, [(calls (convertDenomMid .fx base aliases src dst n)).map toD] =
+      if src = base ∧ aliases.contains dst then nativeAlias_baseToAlias
+      else if dst = base ∧ aliases.contains src then nativeAlias_aliasToBase else nativeAlias_aliasToAlias) ∧
+    (∀ k base aliases src dst u r n, (calls (convertDenomU k base aliases src dst u r n)).map toD =
+      [.sendAccToMod] ++ (calls (convertDenomMid k base aliases src dst n)).map toD ++ [.sendModToAcc] ++
+      (if u = r then [] else [.sendAccToMod, .sendModToAcc])) := by
+  refine ⟨by decide, by decide, by decide, by decide, by decide, by decide, by decide, ?_, ?_, ?_, ?_⟩
+  · intro base aliases src dst n
+    simp only [convertDenomMid]
+    split
+    · simp [calls, call_burn_coin, toD, nativeCoin_srcIsBase]
+    · split <;> simp [calls, call_mint_coin, toD, nativeCoin_dstIsBase, nativeCoin_aliasToAlias]
+  · intro base aliases src dst n
+    simp only [convertDenomMid]
+    split
+    · simp [calls, call_mint_coin, toD, nativeERC20_srcIsBase]
+    · split <;> simp [calls, call_burn_coin, toD, nativeERC20_dstIsBase, nativeERC20_aliasToAlias]
+  · intro base aliases src dst n
+    simp only [convertDenomMid]
+    split
+    · simp [calls, call_mint_coin, toD, nativeAlias_baseToAlias]
+    · split <;> simp [calls, call_mint_coin, call_burn_coin, toD, nativeAlias_aliasToBase, nativeAlias_aliasToAlias]
+  · intro k base aliases src dst u r n
+    by_cases hur : u = r <;> simp [convertDenomU, calls, call_send_coin, isModule, E, toD, hur]
+
+open FxVerif.Gen.C08b in
+/-- **the handlers as modelled are the handlers as written**: `MintingEnabled` checks, in this order, the global
+switch, the pair's existence, the pair's `Enabled` flag (then the blocked-address and send-enabled checks of the bank);
+`ConvertCoin` looks the pair up by the message's coin denomination and `ConvertERC20` by the message's contract address
+— nothing else, in particular no alias resolution —, both remove a pair whose contract holds no code and succeed, and
+both dispatch on ownership to the function that `unified_flows_match_code` ties to the model, passing the message's own
+coin / amount -/
+theorem handlers_match_code :
+    mintingEnabled_guards.map Prod.snd =
+      ["ErrERC20Disabled", "ErrTokenPairNotFound", "ErrERC20TokenPairDisabled", "ErrUnauthorized", "ErrSendDisabled"] ∧
+    (mintingEnabled_guards.map Prod.fst).take 3 = ["!k.GetEnableErc20(ctx)", "!found", "!pair.Enabled"] ∧
+    convertCoin_lookup = "msg.Coin.Denom" ∧ convertERC20_lookup = "msg.ContractAddress" ∧
+    convertCoin_removesDeadPair = true ∧ convertERC20_removesDeadPair = true ∧
+    convertCoin_dispatch =
+      [("pair.IsNativeCoin()", "ConvertCoinNativeCoin", "ctx, pair, sender, receiver, msg.Coin"),
+       ("pair.IsNativeERC20()", "ConvertCoinNativeERC20", "ctx, pair, sender, receiver, msg.Coin")] ∧
+    convertERC20_dispatch =
+      [("pair.IsNativeCoin()", "ConvertERC20NativeCoin", "ctx, pair, sender, receiver, msg.Amount"),
+       ("pair.IsNativeERC20()", "ConvertERC20NativeToken", "ctx, pair, sender, receiver, msg.Amount")] := by
+  decide
+
+/-- the model's `MintingEnabled` takes the same decisions in the same order -/
+theorem mintingEnabled_order (s : UState) (o : Option Pair) :
+    (s.enable = false → mintingEnabled s o = .error .disabled) ∧
+    (s.enable = true → o = none → mintingEnabled s o = .error .notFound) ∧
+    (∀ p, s.enable = true → o = some p → p.enabled = false → mintingEnabled s o = .error .disabled) ∧
+    (∀ p, s.enable = true → o = some p → p.enabled = true → mintingEnabled s o = .ok p) := by
+  refine ⟨?_, ?_, ?_, ?_⟩ <;> intros <;> simp_all [mintingEnabled]
+
+open FxVerif.Gen.C08b in
+/-- **which precompile conversions are keeper-level nested EVM executions** (the ones `mixed_tx_coherent` needs its
+hypothesis for): `bridgeCall` (`EvmToBaseCoin`), `cancelSendToExternal` (the refund of `RemoveFromOutgoingPoolAndRefund`
+is converted back by the erc20 keeper's `ConvertCoin`) and `executeClaim` (`ExecuteClaim`); `crossChain` and
+`increaseBridgeFee` convert through the running EVM (`handlerERC20Token`, which itself makes no keeper-level EVM call).
+A new nested path changes this table. -/
+theorem nested_conversion_paths_match_code :
+    precompileTokenConversions.filter (fun p => p.2.1 = "keeper") =
+      [("BridgeCallMethod", "keeper", "EvmToBaseCoin"),
+       ("CancelSendToExternalMethod", "keeper", "RemoveFromOutgoingPoolAndRefund"),
+       ("ExecuteClaimMethod", "keeper", "ExecuteClaim")] ∧
+    hookOutgoingRefund_usesKeeperConvertCoin = true ∧
+    (precompileTokenConversions.filter (fun p => p.2.2 = "handlerERC20Token")).map Prod.fst =
+      ["CrossChainMethod", "IncreaseBridgeFeeMethod"] ∧
+    handlerERC20Token_usesKeeperLevelEVM = false := by
+  decide
+
+/-! ### I_index, inductively (unified model: every message of the erc20 module, any order, any arguments) -/
+
+open FxVerif.Proofs.C08 in
+/-- the erc20 store at genesis satisfies I_index -/
+theorem index_invariant_genesis : IdxInv genesisIdx := by
+  constructor
+  · intro id p h
+    simp only [genesisIdx, addPair, setKV, lookup] at h ⊢
+    split at h
+    · cases h; rename_i e; subst e; exact ⟨rfl, by simp, by simp⟩
+    · cases h
+  · intro d id h
+    simp only [genesisIdx, addPair, setKV, lookup] at h ⊢
+    split at h
+    · cases h; rename_i e; subst e; exact ⟨_, rfl, rfl⟩
+    · cases h
+  · intro ct id h
+    simp only [genesisIdx, addPair, setKV, lookup] at h ⊢
+    split at h
+    · cases h; rename_i e; subst e; exact ⟨_, rfl, rfl⟩
+    · cases h
+  · intro a d h; simp [genesisIdx, addPair, lookup] at h
+  · intro d as _ hm a ha
+    simp only [genesisIdx, addPair, lookup] at hm
+    split at hm
+    · cases hm; cases ha
+    · cases hm
+  · intro a d h; simp [genesisIdx, addPair, lookup] at h
+
+open FxVerif.Proofs.C08 in
+/-- **I_index is an invariant of the message server**: every message — conversions (including the removal of a pair
+whose contract self-destructed), registrations, toggles, alias updates, parameter updates — keeps "the pair records, the
+denom index, the contract index, the alias index and the bank metadata aliases describe the same set of pairs, and no
+denomination is both a registered base denomination and an alias".  Only environment fact used: the contract deployed
+by `RegisterNativeCoin` has a new address (`UOp.fresh`). -/
+theorem index_invariant_step (s s' : UState) (hi : IdxInv s.idx) (op : UOp) (hf : UOp.fresh s op)
+    (h : stepU s op = .ok s') : IdxInv s'.idx :=
+  inv_stepU s s' hi op hf h
+
+open FxVerif.Proofs.C08 in
+/-- **I_index holds after every sequence of messages from genesis** (induction over the op list; any ledger, any set
+of self-destructed contracts) -/
+theorem index_invariant_from_genesis (L : Ledger) (dead : List Nat) (ops : List UOp)
+    (hf : FreshRun ⟨genesisIdx, L, true, dead⟩ ops) : IdxInv (runU ⟨genesisIdx, L, true, dead⟩ ops).idx :=
+  inv_runU _ index_invariant_genesis ops hf
+
+open FxVerif.Proofs.C08 in
+/-- the freshness hypothesis is satisfiable by a run that registers, converts, updates an alias and toggles -/
+example : FreshRun ⟨genesisIdx, ⟨fun _ _ => 5, fun _ => 5, fun _ => none⟩, true, []⟩
+    [.idx (.registerCoin 1 10 [110]), .convertCoin 1 0 1 3, .idx (.updateAlias 1 111), .idx (.registerCoin 2 11 []),
+     .idx (.toggle 1)] := by
+  refine ⟨?_, trivial, trivial, ?_, trivial, trivial⟩ <;> (simp only [UOp.fresh, IOp.fresh]; decide)
+
+/-! ### I_module over every message (unified model) -/
+
+open FxVerif.Proofs.C08 in
+/-- **I_module is kept by every message of the module**, whatever it operates on: for a registered module-owned pair
+`(d, ct)` the coins escrowed for it (by the module account; by the WFX contract for the native coin) minus the ERC-20
+total supply is unchanged by any `MsgConvertCoin`, `MsgConvertERC20`, `MsgConvertDenom` (of any denomination, towards
+any target — including conversions of other tokens' denominations and of this token's own aliases), registration,
+toggle, alias update and parameter update, in every state that satisfies I_index. -/
+theorem module_book_every_message (s s' : UState) (hi : IdxInv s.idx) (id : PairId) (p : Pair)
+    (hp : lookup id s.idx.pairs = some p) (hext : p.external = false) (op : UOp) (h : stepU s op = .ok s') :
+    (bookM p.denom p.contract (decide (p.denom = 0))).val s'.L = (bookM p.denom p.contract (decide (p.denom = 0))).val s.L :=
+  bookM_stepU s s' hi id p hp hext op h
+
+open FxVerif.Proofs.C08 in
+/-- **I_module along every sequence of messages** (induction): from any state satisfying I_index in which no contract
+has self-destructed, every registered module-owned pair keeps its book through any list of messages -/
+theorem module_books_preserved_all_messages (s : UState) (hi : IdxInv s.idx) (hdead : s.dead = []) (ops : List UOp)
+    (hf : FreshRun s ops) (id : PairId) (p : Pair) (hp : lookup id s.idx.pairs = some p) (hext : p.external = false) :
+    (bookM p.denom p.contract (decide (p.denom = 0))).val (runU s ops).L =
+      (bookM p.denom p.contract (decide (p.denom = 0))).val s.L :=
+  bookM_runU s hi hdead ops hf id p hp hext
+
+/-! ### I_external over every message (unified model, dynamic alias sets) -/
+
+open FxVerif.Proofs.C08 in
+/-- **I_external, exactly, for every message**: for a registered externally-owned pair `(d, ct)` whose bank metadata
+lists the aliases `as`, the ERC-20 amount escrowed by the module minus the coin supply summed over `d :: as` changes,
+under ANY message of the module in any state satisfying I_index, by exactly `extDelta`: 0 for every `MsgConvertCoin`,
+`MsgConvertERC20`, registration, toggle, alias update, parameter update and every `MsgConvertDenom` of another token's
+denominations; −n for `MsgConvertDenom` base → alias of this token (the known finding: the alias is minted while the
+base coin stays locked), +n for alias → base, 0 for alias → alias.  (`Nodup`: `Metadata.Validate` rejects duplicates.) -/
+theorem external_book_every_message (s s' : UState) (hi : IdxInv s.idx) (id : PairId) (p : Pair)
+    (hp : lookup id s.idx.pairs = some p) (hext : p.external = true) (as : List Nat)
+    (hmd : lookup p.denom s.idx.md = some as) (hn : (p.denom :: as).Nodup) (op : UOp) (h : stepU s op = .ok s') :
+    (bookE p.denom p.contract as).val s'.L = (bookE p.denom p.contract as).val s.L + extDelta s.idx p op :=
+  bookE_stepU s s' hi id p hp hext as hmd hn op h
+
+open FxVerif.Proofs.C08 in
+/-- corollary: every message other than `MsgConvertDenom` keeps I_external of every externally-owned pair -/
+theorem external_book_preserved_by_conversions (s s' : UState) (hi : IdxInv s.idx) (id : PairId) (p : Pair)
+    (hp : lookup id s.idx.pairs = some p) (hext : p.external = true) (as : List Nat)
+    (hmd : lookup p.denom s.idx.md = some as) (hn : (p.denom :: as).Nodup) (op : UOp)
+    (hop : ∀ d u r n t, op ≠ .convertDenom d u r n t) (h : stepU s op = .ok s') :
+    (bookE p.denom p.contract as).val s'.L = (bookE p.denom p.contract as).val s.L := by
+  rw [bookE_stepU s s' hi id p hp hext as hmd hn op h]
+  cases op with
+  | convertDenom d u r n t => exact absurd rfl (hop d u r n t)
+  | _ => simp [extDelta]
+
+open FxVerif.Proofs.C08 in
+/-- what `MsgUpdateDenomAlias` itself does to I_external: adding alias `a` to the metadata moves the right-hand side by
+exactly the current supply of `a` (0 for a denomination nobody holds) -/
+theorem external_book_alias_added (d ct : Nat) (as : List Nat) (a : Nat) (L : Ledger) :
+    (bookE d ct (as ++ [a])).val L = (bookE d ct as).val L - (L.supply (coinAsset a) : Int) := by
+  have := supplySum_val_append (d :: as) a L
+  simp only [List.cons_append] at this
+  simp only [bookE, Obs.add, Obs.neg, this]; omega
+
+open FxVerif.Proofs.C08 in
+/-- **the denominations of a module-owned coin stay backed** (I_family): for a registered module-owned pair whose bank
+metadata lists the aliases `as`, (supply of the base coin − alias coins escrowed by the erc20 module account) is kept
+by EVERY message in every state satisfying I_index — alias → base escrows the alias and mints the base, base → alias
+burns the base and releases the alias, alias → alias moves escrow only; the native coin's `convertNativeAlias` branch
+included; conversions of other tokens and all index operations do not touch it -/
+theorem family_book_every_message (s s' : UState) (hi : IdxInv s.idx) (id : PairId) (p : Pair)
+    (hp : lookup id s.idx.pairs = some p) (hext : p.external = false) (as : List Nat)
+    (hmd : lookup p.denom s.idx.md = some as) (hn : (p.denom :: as).Nodup) (op : UOp) (h : stepU s op = .ok s') :
+    (bookF p.denom as).val s'.L = (bookF p.denom as).val s.L :=
+  bookF_stepU s s' hi id p hp hext as hmd hn op h
+
+/-! ### convert_exact and I_sum for the unified model -/
+
+section Exact
+open FxVerif.Proofs.C08
+
+/-- what a successful `stepU` of a conversion message did, in terms of the pair it found and the flow it ran -/
+theorem stepU_convertCoin_ok (s s' : UState) (d u r n : Nat) (h : stepU s (.convertCoin d u r n) = .ok s') :
+    ∃ p, pairByDenom s.idx d = some p ∧
+      ((s.dead.contains p.contract = true ∧ s' = { s with idx := removePair s.idx p }) ∨
+       (s.dead.contains p.contract = false ∧ ∃ L', runFlow (convertCoinU p.kind d p.contract (.user u) (.user r) n) s.L = .ok L' ∧
+          s' = { s with L := L' })) := by
+  simp only [stepU] at h
+  split at h; · cases h
+  rename_i p hme
+  refine ⟨p, mintingEnabled_ok hme, ?_⟩
+  split at h
+  · rename_i hd; cases h; exact Or.inl ⟨hd, rfl⟩
+  · rename_i hd
+    simp only [UState.withLedger] at h
+    split at h
+    · rename_i L' hr; cases h; exact Or.inr ⟨by simpa using hd, L', hr, rfl⟩
+    · cases h
+
+theorem stepU_convertERC20_ok (s s' : UState) (ct u r n : Nat) (h : stepU s (.convertERC20 ct u r n) = .ok s') :
+    ∃ p, pairByErc s.idx ct = some p ∧
+      ((s.dead.contains p.contract = true ∧ s' = { s with idx := removePair s.idx p }) ∨
+       (s.dead.contains p.contract = false ∧
+          ∃ L', runFlow (convertERC20U p.kind p.denom p.contract (.user u) (.user r) n) s.L = .ok L' ∧ s' = { s with L := L' })) := by
+  simp only [stepU] at h
+  split at h; · cases h
+  rename_i p hme
+  refine ⟨p, mintingEnabled_ok hme, ?_⟩
+  split at h
+  · rename_i hd; cases h; exact Or.inl ⟨hd, rfl⟩
+  · rename_i hd
+    simp only [UState.withLedger] at h
+    split at h
+    · rename_i L' hr; cases h; exact Or.inr ⟨by simpa using hd, L', hr, rfl⟩
+    · cases h
+
+/-- **convert_exact, `MsgConvertCoin` (unified)**: a successful message on a live pair changes, among all accounts
+other than the erc20 module account and the WFX contract and among ALL denominations and ALL contracts, exactly: the
+sender's balance of the message's coin denomination (−n) and the receiver's balance of the ERC-20 of the pair
+registered for that denomination (+n); the indexes are untouched -/
+theorem convertCoin_exact_unified (s s' : UState) (d u r n : Nat) (h : stepU s (.convertCoin d u r n) = .ok s')
+    (hlive : ∀ p, pairByDenom s.idx d = some p → s.dead.contains p.contract = false) :
+    ∃ p, pairByDenom s.idx d = some p ∧ s'.idx = s.idx ∧
+      ∀ (a : Asset) (x : Addr), x ≠ .erc20Mod → x ≠ .wfx →
+        (s'.L.bal a x : Int) = s.L.bal a x + (if a = .erc p.contract ∧ x = .user r then (n : Int) else 0)
+          - (if a = coinAsset d ∧ x = .user u then (n : Int) else 0) := by
+  obtain ⟨p, hp, hcase⟩ := stepU_convertCoin_ok s s' d u r n h
+  rcases hcase with ⟨hd, _⟩ | ⟨_, L', hr, rfl⟩
+  · rw [hlive p hp] at hd; cases hd
+  · refine ⟨p, hp, rfl, fun a x h1 h2 => ?_⟩
+    have := runFlow_obs (balObs_sound a x) _ _ _ hr
+    simp only [balObs] at this
+    rw [this]
+    have h1' : ¬ Addr.erc20Mod = x := fun e => h1 e.symm
+    have h2' : ¬ Addr.wfx = x := fun e => h2 e.symm
+    have hne : ∀ ct, ¬ coinAsset d = Asset.erc ct := fun ct => coinAsset_ne_erc d ct
+    have hne' : ∀ ct, ¬ Asset.erc ct = coinAsset d := fun ct => erc_ne_coinAsset d ct
+    by_cases ha1 : a = .erc p.contract <;> by_cases ha2 : a = coinAsset d <;> by_cases hx1 : x = .user r <;>
+      by_cases hx2 : x = .user u <;> cases p.kind <;>
+      simp [convertCoinU, Obs.flowDelta, balObs, E, ha1, ha2, hx1, hx2, h1, h2, h1', h2', hne, hne', eq_comm] <;>
+      (try simp_all) <;> (try omega)
+
+/-- **convert_exact, `MsgConvertERC20` (unified)** -/
+theorem convertERC20_exact_unified (s s' : UState) (ct u r n : Nat) (h : stepU s (.convertERC20 ct u r n) = .ok s')
+    (hlive : ∀ p, pairByErc s.idx ct = some p → s.dead.contains p.contract = false) :
+    ∃ p, pairByErc s.idx ct = some p ∧ s'.idx = s.idx ∧
+      ∀ (a : Asset) (x : Addr), x ≠ .erc20Mod → x ≠ .wfx →
+        (s'.L.bal a x : Int) = s.L.bal a x + (if a = coinAsset p.denom ∧ x = .user r then (n : Int) else 0)
+          - (if a = .erc p.contract ∧ x = .user u then (n : Int) else 0) := by
+  obtain ⟨p, hp, hcase⟩ := stepU_convertERC20_ok s s' ct u r n h
+  rcases hcase with ⟨hd, _⟩ | ⟨_, L', hr, rfl⟩
+  · rw [hlive p hp] at hd; cases hd
+  · refine ⟨p, hp, rfl, fun a x h1 h2 => ?_⟩
+    have := runFlow_obs (balObs_sound a x) _ _ _ hr
+    simp only [balObs] at this
+    rw [this]
+    have h1' : ¬ Addr.erc20Mod = x := fun e => h1 e.symm
+    have h2' : ¬ Addr.wfx = x := fun e => h2 e.symm
+    have hne : ∀ c, ¬ coinAsset p.denom = Asset.erc c := fun c => coinAsset_ne_erc _ c
+    have hne' : ∀ c, ¬ Asset.erc c = coinAsset p.denom := fun c => erc_ne_coinAsset _ c
+    by_cases ha1 : a = .erc p.contract <;> by_cases ha2 : a = coinAsset p.denom <;> by_cases hx1 : x = .user r <;>
+      by_cases hx2 : x = .user u <;> cases p.kind <;>
+      simp [convertERC20U, Obs.flowDelta, balObs, E, ha1, ha2, hx1, hx2, h1, h2, h1', h2', hne, hne', eq_comm] <;>
+      (try simp_all) <;> (try omega)
+
+/-- every flow of the unified model only names the users of the message, the erc20 module account and the WFX contract -/
+theorem stepU_ledger_flow (s s' : UState) (op : UOp) (h : stepU s op = .ok s') :
+    s'.L = s.L ∨ ∃ fl, runFlow fl s.L = .ok s'.L ∧
+      ∀ univ : List Addr, Addr.erc20Mod ∈ univ → Addr.wfx ∈ univ →
+        (match op with
+          | .convertCoin _ u r _ => Addr.user u ∈ univ ∧ Addr.user r ∈ univ
+          | .convertERC20 _ u r _ => Addr.user u ∈ univ ∧ Addr.user r ∈ univ
+          | .convertDenom _ u r _ _ => Addr.user u ∈ univ ∧ Addr.user r ∈ univ
+          | _ => True) → ∀ p ∈ fl, p.addrsIn univ := by
+  cases op with
+  | convertCoin d u r n =>
+    obtain ⟨p, _, hcase⟩ := stepU_convertCoin_ok s s' d u r n h
+    rcases hcase with ⟨_, rfl⟩ | ⟨_, L', hr, rfl⟩
+    · exact Or.inl rfl
+    · refine Or.inr ⟨_, hr, fun univ hE hW hu q hq => ?_⟩
+      generalize p.kind = k at hq
+      cases k <;> simp only [convertCoinU, List.mem_cons, List.not_mem_nil, or_false] at hq <;>
+        rcases hq with rfl | rfl | rfl <;> simp [Prim.addrsIn, E, hu.1, hu.2, hE, hW]
+  | convertERC20 ct u r n =>
+    obtain ⟨p, _, hcase⟩ := stepU_convertERC20_ok s s' ct u r n h
+    rcases hcase with ⟨_, rfl⟩ | ⟨_, L', hr, rfl⟩
+    · exact Or.inl rfl
+    · refine Or.inr ⟨_, hr, fun univ hE hW hu q hq => ?_⟩
+      generalize p.kind = k at hq
+      cases k <;> simp only [convertERC20U, List.mem_cons, List.not_mem_nil, or_false] at hq <;>
+        rcases hq with rfl | rfl | rfl <;> simp [Prim.addrsIn, E, hu.1, hu.2, hE, hW]
+  | convertDenom d u r n tgt =>
+    simp only [stepU] at h
+    split at h; · cases h
+    split at h; · cases h
+    split at h
+    · split at h <;> cases h
+    · simp only [UState.withLedger] at h
+      split at h
+      · rename_i L' hr
+        cases h
+        refine Or.inr ⟨_, hr, fun univ hE hW hu q hq => ?_⟩
+        simp only [convertDenomU, List.mem_append, List.mem_cons, List.not_mem_nil, or_false] at hq
+        rcases hq with ((rfl | hq) | rfl) | hq
+        · simp [Prim.addrsIn, E, hu.1, hE]
+        · rename_i k _ _ _ _ _
+          simp only [convertDenomMid] at hq
+          (repeat' split at hq) <;> simp only [List.mem_cons, List.not_mem_nil, or_false] at hq <;>
+            (try rcases hq with rfl | rfl) <;> (try subst hq) <;> simp_all [Prim.addrsIn, E]
+        · simp [Prim.addrsIn, E, hu.1, hE]
+        · split at hq
+          · cases hq
+          · simp only [List.mem_cons, List.not_mem_nil, or_false] at hq
+            rcases hq with rfl | rfl <;> simp [Prim.addrsIn, E, hu.1, hu.2, hE]
+      · cases h
+  | idx iop => obtain ⟨i, _, rfl⟩ := stepU_idx_ok h; exact Or.inl rfl
+  | setEnable b => simp only [stepU] at h; cases h; exact Or.inl rfl
+
+/-- **I_sum (unified)**: every message keeps "Σ balances = supply" of every coin denomination and every ERC-20
+contract, over any finite universe of accounts containing the message's users, the module account and the WFX contract -/
+theorem sum_preserved_unified (s s' : UState) (op : UOp) (h : stepU s op = .ok s')
+    (univ : List Addr) (hn : univ.Nodup) (hE : Addr.erc20Mod ∈ univ) (hW : Addr.wfx ∈ univ)
+    (hu : match op with
+          | .convertCoin _ u r _ => Addr.user u ∈ univ ∧ Addr.user r ∈ univ
+          | .convertERC20 _ u r _ => Addr.user u ∈ univ ∧ Addr.user r ∈ univ
+          | .convertDenom _ u r _ _ => Addr.user u ∈ univ ∧ Addr.user r ∈ univ
+          | _ => True)
+    (a : Asset) (hwf : s.L.WF univ a) : s'.L.WF univ a := by
+  rcases stepU_ledger_flow s s' op h with e | ⟨fl, hr, hin⟩
+  · rw [e]; exact hwf
+  · exact runFlow_WF univ hn fl _ _ hr (hin univ hE hW hu) a hwf
+
+end Exact
+
+/-! ### mixed transactions: the running StateDB's caches and keeper-level nested calls (Model/C08Cache.lean) -/
+
+section Mixed
+open FxVerif.Model.C08Cache FxVerif.Proofs.C08Cache
+
+/-- **a StateDB is a faithful buffer**: starting from caches that agree with the store (in particular from empty
+caches), executing any contract program through `GetState` / `SetState` and committing gives exactly the plain execution
+of the program on the store — same outcome, same final storage.  For every program. -/
+theorem statedb_is_faithful_buffer (p : TProg) (st : Store) :
+    nestedCall p st = ((runPlain p st).1, if (runPlain p st).1 then (runPlain p st).2 else st) :=
+  nestedCall_eq_plain p st
+
+/-- **mixed_tx_coherent**: for EVERY transaction — any sequence of contract programs executed by the running EVM and
+keeper-level nested calls, any payments out of the escrow — IF no nested call reads or writes a slot that the running
+StateDB has cached (origin or dirty) at the moment of the call, THEN the transaction's outcome, final token storage and
+final escrow are exactly those of running the same programs one after the other on one store. -/
+theorem mixed_tx_coherent (steps : List MStep) (st : Store) (esc : Nat)
+    (hc : CoherentTx steps ⟨{ store := st }, esc⟩) : txResult steps st esc = seqResult steps st esc :=
+  txResult_coherent steps st esc hc
+
+/-- conversions made through the running EVM (what `crossChain` does with `contract.NewERC20Call`) are always coherent:
+no hypothesis at all when the transaction contains no keeper-level nested call -/
+theorem mixed_tx_running_evm_only (steps : List MStep) (h : ∀ s ∈ steps, ∃ p pay, s = .evm p pay) (st : Store) (esc : Nat) :
+    txResult steps st esc = seqResult steps st esc :=
+  txResult_coherent steps st esc (coherent_of_evm_only steps _ h)
+
+/-- **mixed_tx_preserves_sum_partial** (I_sum under mixing): a transaction made of FIP20 method calls (`transfer`,
+`approve`, `transferFrom`, `mint`, `burn`, `balanceOf` — by the contract itself, by a precompile through the running EVM
+or by keeper-level nested calls) between counted holders keeps "Σ balances − totalSupply", PROVIDED it is coherent
+(`CoherentTx`: no nested call touches a slot cached by the running StateDB).  The hypothesis is exactly what
+`bridgeCall` violates on the real code; the two theorems below are the witnesses. -/
+theorem mixed_tx_preserves_sum_partial (hs : List Nat) (hn : hs.Nodup) (steps : List MStep)
+    (hm : ∀ s ∈ steps, ∃ m : Method, s.prog = m.prog ∧ ∀ a ∈ m.holders, a ∈ hs) (st : Store) (esc : Nat)
+    (hc : CoherentTx steps ⟨{ store := st }, esc⟩) :
+    tokDiff hs (txResult steps st esc).2.1 = tokDiff hs st := by
+  rw [txResult_coherent steps st esc hc]
+  simp only [seqResult]
+  cases hr : runSeq steps (st, esc) with
+  | none => rfl
+  | some r => exact runSeq_tokDiff hs hn steps hm st esc r.1 r.2 hr
+
+/-- witness 1 (dirty slot): the contract transfers 10 of its 50 tokens, then `bridgeCall` converts 50 through a nested
+call that still sees 50: the transaction succeeds, the contract keeps 40, the other holder has 10, the supply dropped by
+50 — 50 tokens too many (the numbers the harness observes on the real EVM) -/
+theorem mixed_tx_dirty_slot_creates_tokens :
+    let r := txResult [.evm (transfer 0 1 10) 0, .nested (burn 0 50) 50 0] (store0 50 0 0 100 0) 100
+    r.1 = true ∧ r.2.1 (.bal 0) = 40 ∧ r.2.1 (.bal 1) = 10 ∧ r.2.1 .supply = 50 ∧ r.2.2 = 50 ∧
+    tokDiff [0, 1, 2] r.2.1 = tokDiff [0, 1, 2] (store0 50 0 0 100 0) + 50 := by
+  decide
+
+/-- witness 2 (stale origin cache): the contract only READS its balance before `bridgeCall` converts 20 and transfers 5
+afterwards: the transfer starts from the cached pre-conversion balance and its write-back undoes the burn -/
+theorem mixed_tx_stale_read_creates_tokens :
+    let r := txResult [.evm (balanceOf 0) 0, .nested (burn 0 20) 20 0, .evm (transfer 0 1 5) 0] (store0 50 0 0 100 0) 100
+    r.1 = true ∧ r.2.1 (.bal 0) = 45 ∧ r.2.1 (.bal 1) = 5 ∧ r.2.1 .supply = 80 ∧
+    tokDiff [0, 1, 2] r.2.1 = tokDiff [0, 1, 2] (store0 50 0 0 100 0) + 20 := by
+  decide
+
+/-- witness 3 (refund lost): the contract transfers 5 tokens away, then `cancelSendToExternal` refunds 20 through a
+keeper-level `mint` whose balance write is overwritten at commit: 20 coins enter the escrow, the supply grows by 20, the
+contract's balance does not — 20 tokens too few -/
+theorem mixed_tx_dirty_slot_loses_refund :
+    let r := txResult [.evm (transfer 0 1 5) 0, .nested (mint 0 20) 0 20] (store0 50 0 0 100 0) 100
+    r.1 = true ∧ r.2.1 (.bal 0) = 45 ∧ r.2.1 (.bal 1) = 5 ∧ r.2.1 .supply = 120 ∧ r.2.2 = 120 ∧
+    tokDiff [0, 1, 2] r.2.1 = tokDiff [0, 1, 2] (store0 50 0 0 100 0) - 20 := by
+  decide
+
+/-- the same conversions through the running EVM (`crossChain`: `transferFrom` then `burn` by the precompile) are
+coherent although the contract dirtied the token first: nothing is created -/
+example :
+    let r := txResult [.evm (transfer 0 1 10) 0, .evm (approve 0 3 40) 0, .evm (transferFrom 3 0 2 40) 0, .evm (burn 2 40) 40]
+      (store0 50 0 0 100 0) 100
+    r.1 = true ∧ r.2.1 (.bal 0) = 0 ∧ r.2.1 (.bal 1) = 10 ∧ r.2.1 .supply = 60 ∧
+    tokDiff [0, 1, 2] r.2.1 = tokDiff [0, 1, 2] (store0 50 0 0 100 0) := by
+  decide
+
+/-- the coherence hypothesis is satisfiable by a transaction that does mix direct calls with a nested conversion: the
+contract reads ANOTHER holder's balance, then `bridgeCall` converts -/
+example : CoherentTx [.evm (balanceOf 1) 0, .nested (burn 0 50) 50 0] ⟨{ store := store0 50 0 0 100 0 }, 100⟩ := by
+  rw [← coherentTxB_iff]; decide
+
+end Mixed
 
 end FxVerif.Props.C08
